@@ -1157,8 +1157,8 @@ static int _GD_Rename(DIRFILE *D, gd_entry_t *E, const char *new_name,
     memcpy(name, new_name, len + 1);
   }
 
-  /* Duplicate check */
-  Q = _GD_FindField(D, name, len, D->entry, D->n_entries, 1, NULL);
+  /* Duplicate check -- an alias holds its name whether or not it resolves */
+  Q = _GD_FindField(D, name, len, D->entry, D->n_entries, 0, NULL);
 
   if (Q == E) {
     free(name);
